@@ -112,6 +112,11 @@ class C15(flow.Spec):
                 with open(GEN, "w") as f:
                     f.write(new)
                 ctx.say("translator: Gen/C15Networks.lean changed (regenerated from the tree)")
+        # the model driver only needs the tables; build it on its own so that it is current even
+        # when a table theorem of Props/C15 no longer checks
+        ok, log = core.lean_build(ctx, ["drv_c15"])
+        if not ok:
+            probs.append("model driver does not build: " + " | ".join(core.lean_failed_decls(log))[:600])
         # textual cross-check of best.hpp (an independent reading of the same source)
         txt = parse_best_hpp()
         checked = 0
@@ -169,7 +174,7 @@ class C15(flow.Spec):
                 for i, l in enumerate(fails[:40]):
                     cs.append([f"case zofail{i}", l])
                 self._zofails = len(fails)
-        ncases = 400 if tier == "quick" else 8000
+        ncases = 400 if tier == "quick" else 30000
         for i in range(ncases):
             lines = [f"case r{round_no}-{i}"]
             for _ in range(8):
